@@ -402,6 +402,12 @@ class Result:
         self.violations = []       # list of (replay dict, found_input: bool)
         self.known_hits = []       # list of (cls, what)
         self.notes = []
+        import glob
+        for old in glob.glob(os.path.join(REPLAYS, "%s-*.json" % prop)):
+            try:
+                os.unlink(old)
+            except OSError:
+                pass
 
     def violation(self, replay, found_input=True):
         self.violations.append((replay, found_input))
